@@ -1,5 +1,6 @@
 //! sketchsim — deterministic simulation harness for probminhash (see /verif/DESIGN.md)
 
+mod alloc_track;
 mod core;
 mod hashers;
 mod nodes;
@@ -8,10 +9,15 @@ mod prng;
 mod sc_dens;
 mod sc_gossip;
 mod sc_paramfile;
+mod sc_sig;
 mod sc_stream;
+mod sc_wstream;
 
 use crate::core::*;
 use std::path::PathBuf;
+
+#[global_allocator]
+static GLOBAL: alloc_track::TrackAlloc = alloc_track::TrackAlloc;
 
 fn usage() -> ! {
     eprintln!(
@@ -27,6 +33,8 @@ macro_rules! scenarios {
     ($m:ident, $name:expr) => {
         match $name {
             "stream" => $m!(sc_stream::Stream),
+            "sig" => $m!(sc_sig::SigSc),
+            "wstream" => $m!(sc_wstream::WStream),
             "dens" => $m!(sc_dens::Dens),
             "gossip" => $m!(sc_gossip::Gossip),
             "joins" => $m!(sc_gossip::Joins),
